@@ -29,7 +29,7 @@ Next == UNCHANGED vs
 SpecAlg == InitAlg /\ [][Next]_vs
 SpecBgp == InitBgp /\ [][Next]_vs
 
-c0 == [D |-> [n \in {"D"} |-> G], active |-> G, ord |-> [x \in {} |-> 0], dev |-> FALSE, dev2 |-> FALSE, union |-> FALSE, dev3 |-> FALSE]
+c0 == [D |-> [n \in {"D"} |-> G], active |-> G, ord |-> [x \in {} |-> 0], dev |-> FALSE, dev2 |-> FALSE, union |-> FALSE, dev3 |-> FALSE, init |-> EmptyMu]
 Inv_JoinCommutes == BagEq(Join(A, B), Join(B, A))
 Inv_JoinIdentity == Join(A, <<EmptyMu>>) = A /\ Join(A, <<>>) = <<>>
 Inv_JoinAssoc == \A m \in Mus : BagEq(Join(Join(A, B), <<m>>), Join(A, Join(B, <<m>>)))
